@@ -409,6 +409,25 @@ def gen_tsv(rng):
                 return rng.choice(['+7', '-7', '007', '-0', '9223372036854775807', '-9223372036854775808'])
             return str(rng.randrange(0, 1000))
         fields = [num() for _ in range(4)]
+        g = rng.random()
+        if g < 0.5:
+            # a geometry ReadFrom accepts (so that the later arms are reached), or one just outside
+            ba = rng.choice([1, 1, 2, 7, 60, 70])
+            ln = rng.choice([0, 1, ba - 1, ba, ba + 1, 3 * ba, rng.randrange(0, 1000)])
+            by = ba + rng.choice([0, 1, 1, 2, -1 if g < 0.08 else 1])
+            if g < 0.05:
+                ba, by = 0, rng.choice([0, 1])
+                ln = rng.choice([0, 0, 1])
+            fields = [str(ln), str(rng.choice([0, 1, 12, rng.randrange(0, 10 ** 6), -1 if g > 0.47 else 3])), str(ba), str(by)]
+        elif g < 0.6:
+            # the overflow test: offset of the last base around MaxInt64
+            ba = rng.choice([1, 2, 60])
+            by = ba + rng.choice([0, 1, 2])
+            lines = rng.choice([0, 1, 2, 1000, 10 ** 9])
+            top = (1 << 63) - 1
+            st = top - ba - lines * by + rng.choice([-2, -1, 0, 1, 2, by, -by])
+            ln = lines * ba + rng.choice([0, 0, ba - 1, 1])
+            fields = [str(ln), str(max(st, 0)), str(ba), str(by)]
         r = rng.random()
         if r < 0.1:
             fields = fields[:rng.randrange(0, 4)]
